@@ -19,7 +19,7 @@ def clamp(run, repo):
     for cname, qual in (('ChemkinReaction', CHEM), ('SurfaceReaction', SURF)):
         ci = repo.cls(qual)
         for has_ts in (True, False):
-            I = Interp(repo, max_depth=12)
+            I = Interp(repo)
             D = I.D
             T, P = D.sym('T'), D.sym('P')
             rxn, rs, ps, ts = reaction(I, repo, qual, nts=1 if has_ts else 0)
@@ -57,7 +57,7 @@ def bep_rules(run, repo):
     for m_ in ('get_E_act', 'get_EoRT_act', 'get_UoRT', 'get_HoRT'):
         run.fn('pmutt.reaction.bep.BEP.' + m_)
     for desc in DESCRIPTORS:
-        I = Interp(repo, max_depth=14)
+        I = Interp(repo)
         D = I.D
         T, P = D.sym('T'), D.sym('P')
         rxn, rs, ps, ts = reaction(I, repo, 'pmutt.reaction.Reaction', nts=0)
@@ -81,17 +81,25 @@ def bep_rules(run, repo):
             n += 1
         # slope bookkeeping on every descriptor x direction
         slope, icpt = D.sym('bep.slope'), D.sym('bep.intercept')
-        dval = I.call_method(bep, '_get_descriptor_val', [], dict(kw, reaction=rxn))
+        # the barrier is linear in the slope: its slope-derivative is the descriptor value the relation used
+        # (read off the public get_E_act, whatever private helper evaluates it)
+        if not (isinstance(Ef, Rat) and isinstance(Er, Rat)):
+            run.fail('REF.bep-descriptor', 'BEP.get_E_act', 'descriptor:' + desc,
+                     'get_E_act did not produce a value: %s / %s' % (show(Ef, 120), show(Er, 120)), owner.module, fn)
+            n += 1
+            continue
+        dval = D.d(Ef, 'bep.slope')
         # the descriptor named is the quantity evaluated (documented table of descriptors)
         if 'delta' in desc:
             want_d = expected_delta(I, rxn, q, kw, desc.startswith('rev_'), False) * Rk * T
         else:
             kws = dict(kw, include_ZPE=False) if q == 'get_EoRT' else kw
             want_d = expected_state(I, rxn, desc.split('_')[0], q, kws) * Rk * T
-        od, fd = repo.find_method(bci, '_get_descriptor_val')
-        run.check(same(dval, want_d), 'REF.bep-descriptor', 'BEP._get_descriptor_val', 'descriptor:' + desc,
-                  'descriptor %r evaluates to %s, expected %s in kcal/mol' % (desc, show(dval, 160), show(want_d, 160)),
-                  od.module, fd)
+        run.check(same(dval, want_d) and same(D.d(Er, 'bep.slope'), want_d), 'REF.bep-descriptor', 'BEP.get_E_act',
+                  'descriptor:' + desc,
+                  'descriptor %r enters the barrier as %s (forward) / %s (reverse), expected %s in kcal/mol'
+                  % (desc, show(dval, 160), show(D.d(Er, 'bep.slope'), 160), show(want_d, 160)),
+                  owner.module, fn)
         n += 1
         for rev, E in ((False, Ef), (True, Er)):
             if 'rev_delta' in desc:
@@ -141,7 +149,7 @@ def preexp(run, repo, classes=('Reaction', 'ChemkinReaction', 'SurfaceReaction')
 def preexp_reaction(run, repo):
     n = 0
     # Reaction.get_A: (kB T/h) exp(dS_act) exp(m) by the entropy route, (kB T/h) q_TS/q_IS exp(m) by the q route
-    I = Interp(repo, max_depth=12)
+    I = Interp(repo)
     D = I.D
     T, P, m_ = D.sym('T'), D.sym('P'), D.sym('m')
     kb, h = D.sym('kb'), D.sym('h')
@@ -172,13 +180,13 @@ def preexp_surface(run, repo, classes):
     for cname, qual in classes:
         ci = repo.cls(qual)
         owner, fn = repo.find_method(ci, 'get_A')
-        run.fn(owner.qual + '.get_A', ci.qual + '._get_n_surf')
+        run.fn(owner.qual + '.get_A')
         for has_ts in (True, False):
             for n_surf_species in (0, 1, 2):
                 for op in ('sum', 'min', 'max', 'mean'):
                     if n_surf_species == 0 and cname == 'SurfaceReaction':
                         continue      # documented: raises without any site density
-                    I = Interp(repo, max_depth=12)
+                    I = Interp(repo)
                     D = I.D
                     T, P = D.sym('T'), D.sym('P')
                     kb, h = D.sym('kb'), D.sym('h')
@@ -270,7 +278,7 @@ def preexp_surface(run, repo, classes):
                                   sample='%s.get_A: %s' % (cname, key) if op == 'sum' and has_ts else None)
                     n += 1
         # include_entropy=False drops the transition-state factor
-        I = Interp(repo, max_depth=12)
+        I = Interp(repo)
         D = I.D
         rxn, rs, ps, ts = reaction(I, repo, qual, nr=1)
         rxn.attrs['_reactants_stoich'] = ListV([C(1)])
